@@ -392,7 +392,7 @@ theorem step_seek (hP1 : entryLimit ≤ P.maxEntry) (hne : ds ≠ [])
               List.map_eq_nil_iff, List.all_eq_true, List.mem_map, decide_eq_true_eq,
               forall_exists_index, and_imp, forall_apply_eq_imp_iff₂]
             exact ⟨hdne, hdlt⟩
-        simp only [hany, if_true]
+        simp only [hany, Bool.or_true, if_true]
         exact ⟨by first | trivial | rfl, sim_reader P ds r' h3 _ g.rd h2⟩
   · simp only [hs, Bool.false_eq_true, if_false]
     refine ⟨by first | trivial | rfl, sim_none P ds _ ?_⟩
@@ -420,6 +420,47 @@ theorem step_sim (hP1 : entryLimit ≤ P.maxEntry) (hP2 : P.maxEntry ≤ P.bufSi
 theorem sim_init : Sim P ds (specInit ds.length) (rInit ds.length) :=
   ⟨by simp [rInit], (by intro k rem h; simp [specInit, List.getD_eq_getElem?_getD, List.getElem?_replicate] at h; split at h <;> cases h),
    (by intro rem h; cases h)⟩
+
+/-! ### no file at all (`newQLogReader` found none): every read is `io.EOF`, `SeekStart`
+and `seekTS` succeed and change nothing -/
+
+theorem rReadMany_nofiles (n : Nat) :
+    rReadMany P [] n ⟨[], 0⟩ [] = (⟨[], 0⟩, [], if n > 0 then some Err.eof else none) := by
+  cases n with
+  | zero => simp [rReadMany]
+  | succ n => simp [rReadMany, rReadNext]
+
+theorem step_nofiles (sp : SpecState)
+    (hsp : sp.fcur = [] ∧ (sp.rcur = none ∨ sp.rcur = some [])) (op : Op) :
+    (specStep (mkCtx tsOf []) sp op (obsOf [] (modelStep P [] tsOf ⟨[], 0⟩ op).2)).1 = none ∧
+    (modelStep P [] tsOf ⟨[], 0⟩ op).1 = ⟨[], 0⟩ ∧
+    (specStep (mkCtx tsOf []) sp op (obsOf [] (modelStep P [] tsOf ⟨[], 0⟩ op).2)).2.fcur = [] ∧
+    ((specStep (mkCtx tsOf []) sp op (obsOf [] (modelStep P [] tsOf ⟨[], 0⟩ op).2)).2.rcur = none ∨
+     (specStep (mkCtx tsOf []) sp op (obsOf [] (modelStep P [] tsOf ⟨[], 0⟩ op).2)).2.rcur = some []) := by
+  obtain ⟨hf, hr⟩ := hsp
+  cases op with
+  | start =>
+    simp [modelStep, obsOf, specStep, mkCtx, rSeekStart, noPromise, allRev]
+  | next n =>
+    simp only [modelStep, rReadMany_nofiles, obsOf, specStep]
+    rcases hr with hr | hr
+    · simp [hr, mkCtx, noPromise]
+    · simp only [hr, mkCtx, noPromise, List.length_nil, List.replicate_zero]
+      have : checkNext [] n 0 (if n > 0 then some Err.eof else none) (hashRanges [] []) = none := by
+        have := checkNext_ok [] [] n [] (by simp)
+        simpa using this
+      simp [this]
+  | seek ts =>
+    simp [modelStep, rSeekTS, rSeekLoop, obsOf, specStep, mkCtx, findStampFilesIdx, noPromise,
+      allRev, stampsOK, increasing]
+  | fstart k =>
+    simp [modelStep, obsOf, specStep, mkCtx, hf]
+  | fnext k n =>
+    simp [modelStep, obsOf, specStep, hf]
+  | fseek k ts =>
+    obtain ⟨hm1, hm2⟩ := modelStep_fseek P tsOf [] ⟨[], 0⟩ k ts
+    rw [hm1, hm2]
+    simp [specStep, mkCtx, hf]
 
 end
 end AGH.C20
